@@ -71,6 +71,7 @@ Violated(g) ==
        \cup (IF R9(g) THEN {"R9"} ELSE {})
        \cup (IF R10(g) THEN {"R10"} ELSE {})
        \cup (IF g.badident THEN {"R12-ident"} ELSE {})
+       \cup (IF g.badderive THEN {"R13-derive"} ELSE {})   \* an entry of the derive list that is no path of identifiers
 
 Verdict(g) == IF Violated(g) = {} THEN "code" ELSE "error"
 
